@@ -6,129 +6,128 @@ use super::shape_common::*;
 use super::*;
 use crate::tags::{KeyTag, KeyTagImpl};
 
-/// One harness per key encoding form. `$klen` = encoded key length, `$kb` = encoded key bytes
-/// (array expression over the symbolic material `$s`), `$kv` = the key value these bytes denote.
+/// One module per key encoding form with one harness per container kind. `$klen` = encoded key
+/// length, `$kb` = encoded key bytes (array expression over the symbolic material `$s`; the first
+/// byte of a varint is always a literal, see shapes_basic.rs), `$kv` = the key value they denote.
 macro_rules! keyed_shapes {
-    ($name:ident, $unwind:expr, $ktag:ty, $lty:ty, $klen:expr, |$s:ident| $pre:expr, $kb:expr, $kv:expr) => {
-        #[kani::proof]
-        #[kani::unwind($unwind)]
-        fn $name() {
-            let $s: [u8; 16] = kani::any();
-            kani::assume($pre);
-            let kb: [u8; $klen] = $kb;
-            let kv: $lty = $kv;
-            let v: u8 = kani::any();
-            let d = any_depth();
+    ($m:ident, $unwind:expr, $ktag:ty, $lty:ty, $klen:expr, |$s:ident| $pre:expr, $kb:expr, $kv:expr) => {
+        mod $m {
+            use super::*;
             const K: usize = $klen;
-            let map1 = <<$ktag as KeyTag>::Impl as KeyTagImpl>::VALUE_KIND_MAP1 as u8;
-            let map2 = <<$ktag as KeyTag>::Impl as KeyTagImpl>::VALUE_KIND_MAP2 as u8;
-            let set1 = <<$ktag as KeyTag>::Impl as KeyTagImpl>::VALUE_KIND_SET1 as u8;
-            let set2 = <<$ktag as KeyTag>::Impl as KeyTagImpl>::VALUE_KIND_SET2 as u8;
 
-            // ---- Map2: [MAP2, SOME, key.., U8, v, NONE]
-            let mut m2 = [0u8; K + 5];
-            m2[0] = map2;
-            m2[1] = SOME;
-            let mut i = 0;
-            while i < K {
-                m2[2 + i] = kb[i];
-                i += 1;
+            fn key() -> ([u8; K], $lty, u8) {
+                let $s: [u8; 16] = kani::any();
+                kani::assume($pre);
+                let kb: [u8; K] = $kb;
+                let kv: $lty = $kv;
+                (kb, kv, kani::any())
             }
-            m2[K + 2] = U8;
-            m2[K + 3] = v;
-            m2[K + 4] = NONE;
-            check_wellformed(&m2, 2, d);
-            let (r, c) = run_map::<$ktag, $lty>(&m2, d);
-            match &r {
-                Ok(items) => {
-                    assert!(d <= 30 && c == K + 5);
-                    assert!(items.len() == 1 && items[0].0 == kv && items[0].1 == v, "map element decoded wrongly");
+
+            fn put_key(dst: &mut [u8], at: usize, kb: &[u8; K]) {
+                let mut i = 0;
+                while i < K {
+                    dst[at + i] = kb[i];
+                    i += 1;
                 }
-                Err(e) => assert!(d > 30 && *e == DeserializeError::TooDeeplyNested),
-            }
-            std::mem::forget(r);
-            check_serialized(&m2, 2, d, |s| s.serialize_map2_iter::<$ktag, $lty, tags::U8, u8, _>([(kv.clone(), v)]));
-            let mut l = 0;
-            while l < K + 5 {
-                check_prefix_rejected(&m2, l);
-                l += 1;
             }
 
-            // ---- Map1: [MAP1, 1, key.., U8, v]
-            let mut m1 = [0u8; K + 4];
-            m1[0] = map1;
-            m1[1] = 1;
-            let mut i = 0;
-            while i < K {
-                m1[2 + i] = kb[i];
-                i += 1;
-            }
-            m1[K + 2] = U8;
-            m1[K + 3] = v;
-            check_wellformed(&m1, 2, d);
-            let (r, c) = run_map::<$ktag, $lty>(&m1, d);
-            match &r {
-                Ok(items) => {
-                    assert!(d <= 30 && c == K + 4);
-                    assert!(items.len() == 1 && items[0].0 == kv && items[0].1 == v);
+            fn all_prefixes_rejected(enc: &[u8]) {
+                let mut l = 0;
+                while l < enc.len() {
+                    check_prefix_rejected(enc, l);
+                    l += 1;
                 }
-                Err(e) => assert!(d > 30 && *e == DeserializeError::TooDeeplyNested),
-            }
-            std::mem::forget(r);
-            check_serialized(&m1, 2, d, |s| s.serialize_map1_iter::<$ktag, $lty, tags::U8, u8, _>([(kv.clone(), v)]));
-            let mut l = 0;
-            while l < K + 4 {
-                check_prefix_rejected(&m1, l);
-                l += 1;
             }
 
-            // ---- Set2: [SET2, SOME, key.., NONE]
-            let mut s2 = [0u8; K + 3];
-            s2[0] = set2;
-            s2[1] = SOME;
-            let mut i = 0;
-            while i < K {
-                s2[2 + i] = kb[i];
-                i += 1;
-            }
-            s2[K + 2] = NONE;
-            check_wellformed(&s2, 1, d);
-            let (r, c) = run_set::<$ktag, $lty>(&s2, d);
-            match &r {
-                Ok(items) => assert!(d <= 31 && c == K + 3 && items.len() == 1 && items[0] == kv),
-                Err(e) => assert!(d > 31 && *e == DeserializeError::TooDeeplyNested),
-            }
-            std::mem::forget(r);
-            check_serialized(&s2, 1, d, |s| s.serialize_set2_iter::<$ktag, _>([kv.clone()]));
-            let mut l = 0;
-            while l < K + 3 {
-                check_prefix_rejected(&s2, l);
-                l += 1;
+            /// Map2: [MAP2, SOME, key.., U8, v, NONE]
+            #[kani::proof]
+            #[kani::unwind($unwind)]
+            fn q_c01_c07_map2() {
+                let (kb, kv, v) = key();
+                let mut m2 = [0u8; K + 5];
+                m2[0] = <<$ktag as KeyTag>::Impl as KeyTagImpl>::VALUE_KIND_MAP2 as u8;
+                m2[1] = SOME;
+                put_key(&mut m2, 2, &kb);
+                m2[K + 2] = U8;
+                m2[K + 3] = v;
+                m2[K + 4] = NONE;
+                check_wellformed(&m2, 2);
+                check_map1elem::<$ktag, $lty>(&m2, &kv, v);
+                check_serialized(&m2, 2, |s: Serializer| s.serialize_map2_iter::<$ktag, $lty, tags::U8, u8, _>([(kv.clone(), v)]));
+                std::mem::forget(kv);
             }
 
-            // ---- Set1: [SET1, 1, key..]
-            let mut s1 = [0u8; K + 2];
-            s1[0] = set1;
-            s1[1] = 1;
-            let mut i = 0;
-            while i < K {
-                s1[2 + i] = kb[i];
-                i += 1;
+            /// Map1: [MAP1, 1, key.., U8, v]
+            #[kani::proof]
+            #[kani::unwind($unwind)]
+            fn q_c01_c07_map1() {
+                let (kb, kv, v) = key();
+                let mut m1 = [0u8; K + 4];
+                m1[0] = <<$ktag as KeyTag>::Impl as KeyTagImpl>::VALUE_KIND_MAP1 as u8;
+                m1[1] = 1;
+                put_key(&mut m1, 2, &kb);
+                m1[K + 2] = U8;
+                m1[K + 3] = v;
+                check_wellformed(&m1, 2);
+                check_map1elem::<$ktag, $lty>(&m1, &kv, v);
+                check_serialized(&m1, 2, |s: Serializer| s.serialize_map1_iter::<$ktag, $lty, tags::U8, u8, _>([(kv.clone(), v)]));
+                std::mem::forget(kv);
             }
-            check_wellformed(&s1, 1, d);
-            let (r, c) = run_set::<$ktag, $lty>(&s1, d);
-            match &r {
-                Ok(items) => assert!(d <= 31 && c == K + 2 && items.len() == 1 && items[0] == kv),
-                Err(e) => assert!(d > 31 && *e == DeserializeError::TooDeeplyNested),
+
+            /// Set2: [SET2, SOME, key.., NONE]
+            #[kani::proof]
+            #[kani::unwind($unwind)]
+            fn q_c01_c07_set2() {
+                let (kb, kv, _) = key();
+                let mut s2 = [0u8; K + 3];
+                s2[0] = <<$ktag as KeyTag>::Impl as KeyTagImpl>::VALUE_KIND_SET2 as u8;
+                s2[1] = SOME;
+                put_key(&mut s2, 2, &kb);
+                s2[K + 2] = NONE;
+                check_wellformed(&s2, 1);
+                check_set1elem::<$ktag, $lty>(&s2, &kv);
+                check_serialized(&s2, 1, |s: Serializer| s.serialize_set2_iter::<$ktag, _>([kv.clone()]));
+                std::mem::forget(kv);
             }
-            std::mem::forget(r);
-            check_serialized(&s1, 1, d, |s| s.serialize_set1_iter::<$ktag, _>([kv.clone()]));
-            let mut l = 0;
-            while l < K + 2 {
-                check_prefix_rejected(&s1, l);
-                l += 1;
+
+            /// Set1: [SET1, 1, key..]
+            #[kani::proof]
+            #[kani::unwind($unwind)]
+            fn q_c01_c07_set1() {
+                let (kb, kv, _) = key();
+                let mut s1 = [0u8; K + 2];
+                s1[0] = <<$ktag as KeyTag>::Impl as KeyTagImpl>::VALUE_KIND_SET1 as u8;
+                s1[1] = 1;
+                put_key(&mut s1, 2, &kb);
+                check_wellformed(&s1, 1);
+                check_set1elem::<$ktag, $lty>(&s1, &kv);
+                check_serialized(&s1, 1, |s: Serializer| s.serialize_set1_iter::<$ktag, _>([kv.clone()]));
+                std::mem::forget(kv);
             }
-            std::mem::forget(kv);
+
+            /// every proper prefix of the four encodings is rejected by skip
+            #[kani::proof]
+            #[kani::unwind($unwind)]
+            fn q_c07_truncations() {
+                let (kb, _kv, v) = key();
+                let mut m2 = [0u8; K + 5];
+                m2[0] = <<$ktag as KeyTag>::Impl as KeyTagImpl>::VALUE_KIND_MAP2 as u8;
+                m2[1] = SOME;
+                put_key(&mut m2, 2, &kb);
+                m2[K + 2] = U8;
+                m2[K + 3] = v;
+                m2[K + 4] = NONE;
+                all_prefixes_rejected(&m2);
+                let mut s1 = [0u8; K + 2];
+                s1[0] = <<$ktag as KeyTag>::Impl as KeyTagImpl>::VALUE_KIND_SET1 as u8;
+                s1[1] = 1;
+                put_key(&mut s1, 2, &kb);
+                all_prefixes_rejected(&s1);
+                std::mem::forget(_kv);
+            }
+
+            #[cfg(verif_replay)]
+            include!(concat!("/verif/.cache/replay/verif__shapes_keys__", stringify!($m), ".rs"));
         }
     };
 }
@@ -137,20 +136,15 @@ fn zz_dec(u: u64) -> i64 {
     ((u >> 1) as i64) ^ -((u & 1) as i64)
 }
 
-keyed_shapes!(q_c01_c07_keys_u8, 10, tags::U8, u8, 1, |s| true, [s[0]], s[0]);
-keyed_shapes!(q_c01_c07_keys_i8, 10, tags::I8, i8, 1, |s| true, [s[0]], s[0] as i8);
-keyed_shapes!(q_c01_c07_keys_u16_short, 10, tags::U16, u16, 1, |s| s[0] <= 253, [s[0]], s[0] as u16);
-keyed_shapes!(q_c01_c07_keys_u16_long, 12, tags::U16, u16, 3, |s| s[1] != 0, [255, s[0], s[1]], u16::from_le_bytes([s[0], s[1]]));
-keyed_shapes!(q_c01_c07_keys_i16_long, 12, tags::I16, i16, 3, |s| s[1] != 0, [255, s[0], s[1]], zz_dec(u16::from_le_bytes([s[0], s[1]]) as u64) as i16);
-keyed_shapes!(q_c01_c07_keys_u32_short, 10, tags::U32, u32, 1, |s| s[0] <= 251, [s[0]], s[0] as u32);
-keyed_shapes!(q_c01_c07_keys_u32_long, 14, tags::U32, u32, 5, |s| s[3] != 0, [255, s[0], s[1], s[2], s[3]], u32::from_le_bytes([s[0], s[1], s[2], s[3]]));
-keyed_shapes!(q_c01_c07_keys_i32_long, 14, tags::I32, i32, 5, |s| s[3] != 0, [255, s[0], s[1], s[2], s[3]], zz_dec(u32::from_le_bytes([s[0], s[1], s[2], s[3]]) as u64) as i32);
-keyed_shapes!(q_c01_c07_keys_u64_long, 18, tags::U64, u64, 9, |s| s[7] != 0, [255, s[0], s[1], s[2], s[3], s[4], s[5], s[6], s[7]], u64::from_le_bytes([s[0], s[1], s[2], s[3], s[4], s[5], s[6], s[7]]));
-keyed_shapes!(q_c01_c07_keys_i64_long, 18, tags::I64, i64, 9, |s| s[7] != 0, [255, s[0], s[1], s[2], s[3], s[4], s[5], s[6], s[7]], zz_dec(u64::from_le_bytes([s[0], s[1], s[2], s[3], s[4], s[5], s[6], s[7]])));
-keyed_shapes!(q_c01_c07_keys_uuid, 28, tags::Uuid, Uuid, 16, |s| true, s, Uuid::from_bytes(s));
-keyed_shapes!(q_c01_c07_keys_string, 12, tags::String, String, 3, |s| s[0] < 0x80 && s[1] < 0x80, [2, s[0], s[1]], {
-    let mut k = String::new();
-    k.push(s[0] as char);
-    k.push(s[1] as char);
-    k
-});
+keyed_shapes!(keys_u8, 10, tags::U8, u8, 1, |s| true, [s[0]], s[0]);
+keyed_shapes!(keys_i8, 10, tags::I8, i8, 1, |s| true, [s[0]], s[0] as i8);
+keyed_shapes!(keys_u16_short, 10, tags::U16, u16, 1, |s| true, [253], 253u16);
+keyed_shapes!(keys_u16_long, 12, tags::U16, u16, 3, |s| s[1] != 0, [255, s[0], s[1]], u16::from_le_bytes([s[0], s[1]]));
+keyed_shapes!(keys_i16_long, 12, tags::I16, i16, 3, |s| s[1] != 0, [255, s[0], s[1]], zz_dec(u16::from_le_bytes([s[0], s[1]]) as u64) as i16);
+keyed_shapes!(keys_u32_short, 10, tags::U32, u32, 1, |s| true, [251], 251u32);
+keyed_shapes!(keys_u32_long, 14, tags::U32, u32, 5, |s| s[3] != 0, [255, s[0], s[1], s[2], s[3]], u32::from_le_bytes([s[0], s[1], s[2], s[3]]));
+keyed_shapes!(keys_i32_long, 14, tags::I32, i32, 5, |s| s[3] != 0, [255, s[0], s[1], s[2], s[3]], zz_dec(u32::from_le_bytes([s[0], s[1], s[2], s[3]]) as u64) as i32);
+keyed_shapes!(keys_u64_long, 18, tags::U64, u64, 9, |s| s[7] != 0, [255, s[0], s[1], s[2], s[3], s[4], s[5], s[6], s[7]], u64::from_le_bytes([s[0], s[1], s[2], s[3], s[4], s[5], s[6], s[7]]));
+keyed_shapes!(keys_i64_long, 18, tags::I64, i64, 9, |s| s[7] != 0, [255, s[0], s[1], s[2], s[3], s[4], s[5], s[6], s[7]], zz_dec(u64::from_le_bytes([s[0], s[1], s[2], s[3], s[4], s[5], s[6], s[7]])));
+keyed_shapes!(keys_uuid, 28, tags::Uuid, Uuid, 16, |s| true, s, Uuid::from_bytes(s));
+keyed_shapes!(keys_string, 12, tags::String, String, 3, |s| s[0] < 0x80 && s[1] < 0x80, [2, s[0], s[1]], String::from_utf8(vec![s[0], s[1]]).unwrap());
